@@ -112,17 +112,41 @@ func c01Shape(g *genRun, w string) string {
 
 // The shape of known finding C01-dotall-stripped, as narrowly as it can be observed: the witness
 // contains a newline and the difference disappears, in all four contexts, as soon as the dots of
-// the output are allowed to match a newline again
+// the output are all allowed to match a newline again, or all forbidden to (the reverse case: the
+// file has ##!+ s and the stripped group was (?-s:.), printed for [^\n])
 func explainedByDotall(g *genRun, w string) bool {
-	for _, ctx := range [][2]bool{{true, true}, {true, false}, {false, true}, {false, false}} {
-		a, e1 := matchExact("(?s)"+g.first.Stdout, w, ctx[0], ctx[1])
-		b, e2 := matchExact(g.den.txt, w, ctx[0], ctx[1])
-		if e1 != nil || e2 != nil || a != b {
-			return false
+	// (a) every dot of the output may match a newline again; (b) no dot of the output matches a
+	// newline (the leading flag group loses its s): the stripped group was (?s:.) or (?-s:.)
+	noS := g.first.Stdout
+	if m := leadingFlagsRe.FindStringSubmatch(noS); m != nil {
+		fl := strings.ReplaceAll(m[1], "s", "")
+		if fl == "" {
+			noS = noS[len(m[0]):]
+		} else {
+			noS = "(?" + fl + ")" + noS[len(m[0]):]
 		}
 	}
-	return true
+	for _, variant := range []string{"(?s)" + g.first.Stdout, noS} {
+		if variant == g.first.Stdout {
+			continue
+		}
+		ok := true
+		for _, ctx := range [][2]bool{{true, true}, {true, false}, {false, true}, {false, false}} {
+			a, e1 := matchExact(variant, w, ctx[0], ctx[1])
+			b, e2 := matchExact(g.den.txt, w, ctx[0], ctx[1])
+			if e1 != nil || e2 != nil || a != b {
+				ok = false
+				break
+			}
+		}
+		if ok {
+			return true
+		}
+	}
+	return false
 }
+
+var leadingFlagsRe = regexp.MustCompile(`^\(\?([is]+)\)`)
 
 // The shape of known finding C01-space-sequence-outside-class: includeVerticalTabInSpaceClass
 // rewrites the text \t\n\f\r<space> to \s\x0b also where it is not inside a bracket expression
